@@ -16,36 +16,16 @@ Definition replace_file (f' : jfile) (x : bfile) : bfile :=
 Lemma src_ext_path f f' : file_src_ext f f' -> j5s_path f' = j5s_path f /\ j5s_pkg f' = j5s_pkg f.
 Proof. intros (Hd & Hb & _). unfold j5s_path, j5s_pkg. rewrite Hd, Hb. auto. Qed.
 
-Section PkgExt.
+(* ---- generic part: the bundle mapped by any [g] that keeps path and package of every file and
+   extends every source file (file_src_ext); instances: one file replaced (replace_file, the
+   single step of C13_full) and a whole history of append edits over several files
+   (J5sFullProofs) *)
+Section PkgExtG.
 Variables snake camel screaming : str -> str.
-Variables (bd : bundle) (f f' : jfile).
-Hypothesis Hext : file_src_ext f f'.
-(* file names are distinct: f is the only file of the bundle with its path *)
-Hypothesis Honly : forall x, In x bd -> bfile_path x = j5s_path f -> x = BJ f.
-
-Notation g := (replace_file f').
-
-Lemma g_cases x : In x bd -> (x = BJ f /\ g x = BJ f') \/ (bfile_path x <> j5s_path f /\ g x = x).
-Proof.
-  intros Hin. unfold replace_file. destruct (src_ext_path _ _ Hext) as [Hp _]. rewrite Hp.
-  destruct (str_eqb (bfile_path x) (j5s_path f)) eqn:E.
-  - apply str_eqb_eq in E. left. split; [apply Honly; assumption|reflexivity].
-  - right. split; [|reflexivity]. intros Heq. rewrite Heq, str_eqb_refl in E. discriminate.
-Qed.
-
-Lemma g_path x : In x bd -> bfile_path (g x) = bfile_path x /\ bfile_pkg (g x) = bfile_pkg x.
-Proof.
-  intros Hin. destruct (g_cases x Hin) as [[Hx Hg]|[_ Hg]]; rewrite Hg; [|auto].
-  subst x. destruct (src_ext_path _ _ Hext) as [Hp Hk]. cbn. auto.
-Qed.
-
-Lemma g_rel x : In x bd ->
+Variables (bd : bundle) (g : bfile -> bfile).
+Hypothesis g_path : forall x, In x bd -> bfile_path (g x) = bfile_path x /\ bfile_pkg (g x) = bfile_pkg x.
+Hypothesis g_rel : forall x, In x bd ->
   (exists j j', x = BJ j /\ g x = BJ j' /\ file_src_ext j j') \/ (exists p, x = BP p /\ g x = BP p).
-Proof.
-  intros Hin. destruct (g_cases x Hin) as [[Hx Hg]|[_ Hg]].
-  - left. exists f, f'. auto.
-  - destruct x as [j|p]; [left; exists j, j; split; [reflexivity|split; [exact Hg|apply file_src_ext_refl]]|right; exists p; auto].
-Qed.
 
 (* the file list of every package is the old one, mapped *)
 Lemma insert_by_map (l : list bfile) a :
@@ -131,7 +111,7 @@ Proof.
 Qed.
 
 (* C13 for a package, before the link step *)
-Theorem convert_package_ext pkg D D' :
+Theorem convert_package_ext_g pkg D D' :
   (forall p l, pkg_exports camel (map g bd) p = Some l -> J5sValid.distinct (map tr_name l) = true) ->
   convert_package snake camel screaming bd pkg = Ok D ->
   convert_package snake camel screaming (map g bd) pkg = Ok D' ->
@@ -145,5 +125,47 @@ Proof.
   eapply cv_files_ext; [exact Hsub| |exact H|exact H'].
   intros this im. apply env_le_of_exports. apply exports_le_map. exact Hdist.
 Qed.
+
+End PkgExtG.
+
+Section PkgExt.
+Variables snake camel screaming : str -> str.
+Variables (bd : bundle) (f f' : jfile).
+Hypothesis Hext : file_src_ext f f'.
+(* file names are distinct: f is the only file of the bundle with its path *)
+Hypothesis Honly : forall x, In x bd -> bfile_path x = j5s_path f -> x = BJ f.
+
+Notation g := (replace_file f').
+
+Lemma g_cases x : In x bd -> (x = BJ f /\ g x = BJ f') \/ (bfile_path x <> j5s_path f /\ g x = x).
+Proof.
+  intros Hin. unfold replace_file. destruct (src_ext_path _ _ Hext) as [Hp _]. rewrite Hp.
+  destruct (str_eqb (bfile_path x) (j5s_path f)) eqn:E.
+  - apply str_eqb_eq in E. left. split; [apply Honly; assumption|reflexivity].
+  - right. split; [|reflexivity]. intros Heq. rewrite Heq, str_eqb_refl in E. discriminate.
+Qed.
+
+Lemma g_path x : In x bd -> bfile_path (g x) = bfile_path x /\ bfile_pkg (g x) = bfile_pkg x.
+Proof.
+  intros Hin. destruct (g_cases x Hin) as [[Hx Hg]|[_ Hg]]; rewrite Hg; [|auto].
+  subst x. destruct (src_ext_path _ _ Hext) as [Hp Hk]. cbn. auto.
+Qed.
+
+Lemma g_rel x : In x bd ->
+  (exists j j', x = BJ j /\ g x = BJ j' /\ file_src_ext j j') \/ (exists p, x = BP p /\ g x = BP p).
+Proof.
+  intros Hin. destruct (g_cases x Hin) as [[Hx Hg]|[_ Hg]].
+  - left. exists f, f'. auto.
+  - destruct x as [j|p]; [left; exists j, j; split; [reflexivity|split; [exact Hg|apply file_src_ext_refl]]|right; exists p; auto].
+Qed.
+
+
+(* C13 for a package, before the link step: one file replaced *)
+Theorem convert_package_ext pkg D D' :
+  (forall p l, pkg_exports camel (map g bd) p = Some l -> J5sValid.distinct (map tr_name l) = true) ->
+  convert_package snake camel screaming bd pkg = Ok D ->
+  convert_package snake camel screaming (map g bd) pkg = Ok D' ->
+  files_ext D D'.
+Proof. exact (convert_package_ext_g snake camel screaming bd g g_path g_rel pkg D D'). Qed.
 
 End PkgExt.
